@@ -88,6 +88,23 @@ impl PatProp for SizeFacts {
         if got_lb_error && !expect_lb_error {
             return Prep::Fail(Fail::new("lookbehind-wrongly-rejected", "no LookBehindNotConst error: every look-behind alternative is judged constant-size", "Err(LookBehindNotConst)"));
         }
+        // independent of the analysis: when the syntax alone fixes the length of every look-behind body (of each
+        // top-level alternative), the pattern must not be refused as "not constant"
+        if got_lb_error {
+            fn all_fixed(n: &Node) -> bool {
+                let here = match n {
+                    Look(b, true, _) => match &**b {
+                        Alt(v) => v.iter().all(|a| a.fixed_char_len().is_some()),
+                        other => other.fixed_char_len().is_some(),
+                    },
+                    _ => true,
+                };
+                here && n.children().iter().all(|c| all_fixed(c))
+            }
+            if all_fixed(&tree) {
+                return Prep::Fail(Fail::new("lookbehind-wrongly-rejected", "the pattern compiles: every look-behind alternative has a fixed length in characters by its syntax alone", "Err(LookBehindNotConst)"));
+            }
+        }
         let compiled = match built {
             Built::Ok(_) => true,
             Built::Err(e) => {
@@ -182,6 +199,20 @@ fn lookbehind_products() -> Vec<Node> {
         CondExpr(bx(Lit('a')), bx(Lit('b')), bx(Concat(vec![Lit('c'), Lit('c')]))),
         CondExpr(bx(Lit('a')), bx(Lit('b')), bx(Empty)),
         CondExpr(bx(Lit('a')), bx(Empty), bx(Lit('b'))),
+        // case-insensitive literals (still one character each), group tests, nested positive look-arounds
+        Flags("i".into(), "".into(), bx(Lit('é'))),
+        Flags("i".into(), "".into(), bx(Concat(vec![Lit('a'), Lit('é')]))),
+        Flags("i".into(), "".into(), bx(Alt(vec![Lit('é'), Concat(vec![Lit('a'), Lit('b')])]))),
+        Concat(vec![Look(bx(Lit('a')), true, false), Lit('b')]),
+        Concat(vec![Look(bx(Concat(vec![Lit('a'), Any])), true, false), Lit('b')]),
+        Concat(vec![Lit('a'), Look(bx(Lit('b')), false, false), Any]),
+        Alt(vec![Lit('b'), Concat(vec![Look(bx(Lit('a')), true, false), Lit('b'), Lit('b')])]),
+    ];
+    let cond_bodies: Vec<Node> = vec![
+        CondGroup(1, bx(Concat(vec![Lit('a'), Lit('b')])), bx(Concat(vec![Any, Lit('b')]))),
+        CondGroup(1, bx(Lit('a')), bx(Lit('b'))),
+        Concat(vec![GroupExists(1), Lit('b')]),
+        Alt(vec![CondGroup(1, bx(Lit('a')), bx(Lit('b'))), Concat(vec![Lit('b'), Lit('b')])]),
     ];
     let mut out = vec![];
     for b in &bodies {
@@ -197,13 +228,22 @@ fn lookbehind_products() -> Vec<Node> {
             out.push(Concat(vec![Group(bx(Any)), lb.clone(), Backref(1)]));
         }
     }
+    // group tests inside a look-behind: (a)?b(?<=(?(1)ab|.b))c and friends
+    for b in &cond_bodies {
+        for neg in [false, true] {
+            let lb = Look(bx(b.clone()), true, neg);
+            out.push(Concat(vec![Repeat(bx(Group(bx(Lit('a')))), 0, Some(1), Q::Greedy), Lit('b'), lb.clone(), Lit('c')]));
+            out.push(Concat(vec![Repeat(bx(Group(bx(Lit('a')))), 0, Some(1), Q::Greedy), Any, lb.clone()]));
+            out.push(Concat(vec![Alt(vec![Group(bx(Lit('a'))), Lit('b')]), Lit('b'), lb]));
+        }
+    }
     gen::dedup_by_print(out.into_iter().map(super::api::flatten).collect())
 }
 
 pub fn run(ctx: &RunCtx) -> Outcome {
     let p = SizeFacts;
     let mut o = Outcome::default();
-    o.rule = "(a) every sub-expression of every pattern of the unrestricted space (exhaustive trees, conditional trees, context x filler products, look-behind products, proptest random ASTs) that parses and analyses: the pattern is re-read through Expr::parse_tree and converted node for node into the reference AST, the instrumented reference matcher records over all texts and offsets the set of character lengths each node matched (in context), and these must respect the analysis facts read through the hook: min(observed) >= min_size, const_size => one observed length - also for patterns the compiler then rejects; and the build fails with LookBehindNotConst exactly when some look-behind body (or, for a top-level alternation, one of its alternatives) is not judged constant-size. (b) look-behind products (fixed / variable / multi-byte / alternated / nested bodies, inside loops) over multi-byte texts at every offset: results equal the reference matcher, or the build fails. Non-trivial (a) = the case contributed a new (node, length) observation for a node with non-zero minimum or constant size. Distinct = distinct (pattern, text, offset).".into();
+    o.rule = "(a) every sub-expression of every pattern of the unrestricted space (exhaustive trees, conditional trees, context x filler products, look-behind products, proptest random ASTs) that parses and analyses: the pattern is re-read through Expr::parse_tree and converted node for node into the reference AST, the instrumented reference matcher records over all texts and offsets the set of character lengths each node matched (in context), and these must respect the analysis facts read through the hook: min(observed) >= min_size, const_size => one observed length - also for patterns the compiler then rejects; and the build fails with LookBehindNotConst exactly when some look-behind body (or, for a top-level alternation, one of its alternatives) is not judged constant-size - and never when the syntax alone fixes the length of every such body (independent computation on the converted tree). (b) look-behind products (fixed / variable / multi-byte / alternated / nested bodies, inside loops) over multi-byte texts at every offset: results equal the reference matcher, or the build fails. Non-trivial (a) = the case contributed a new (node, length) observation for a node with non-zero minimum or constant size. Distinct = distinct (pattern, text, offset).".into();
     o.assumptions = vec!["reference matcher; conversion Expr -> reference AST (harness/src/conv.rs) keeps the tree shape, checked per pattern (alignment mismatches are skipped and counted)".into()];
     o.required_classes = vec!["feature:look-behind".into(), "build:ok".into(), "build:LookBehindNotConst".into(), "observed:compiled-pattern".into(), "observed:rejected-pattern".into()];
     let quick = ctx.quick();
